@@ -139,7 +139,7 @@ impl StateMachine<'_> {
         self.painter.paint_buffered_minus_and_plus_lines();
         if self.should_write_generic_diff_header_header_line()? {
             handled_line = true;
-        } else if self.should_handle()
+        } else if self.should_handle_diff_header()
             && self.handled_diff_header_header_line_file_pair != self.current_file_pair
         {
             self.painter.emit()?;
@@ -187,7 +187,7 @@ impl StateMachine<'_> {
         }
 
         if self.should_write_generic_diff_header_header_line()?
-            || (self.should_handle()
+            || (self.should_handle_diff_header()
                 && self.handled_diff_header_header_line_file_pair != self.current_file_pair)
         {
             handled_line = true;
